@@ -16,6 +16,7 @@ pub static DEF: PropDef = PropDef {
     ],
     run,
     replay,
+    fuzz: None,
 };
 
 #[derive(Serialize, Deserialize, Debug, Clone)]
